@@ -110,7 +110,22 @@ def r121(ctx, rid="R12.1"):
                                f"velocity control conversion copies `{render(e)[:80]}` into {fname}",
                                where=f"{fb.file}:{s.line}", sample=f"{fname} <- v.{fname}")
         ctx.floor(rid, f"aggregate in {frm[-60:]}", n, 1)
-    # NodeStateEntry::from(&NodeState) reads both controls
+    # NodeStateEntry::from(&NodeState) stores each control from the same-named live field
+    sb_ = p.fn("<vls_persist::model::NodeStateEntry as std::convert::From<&lightning_signer::node::NodeState>>::from")
+    sv_ = fnview(ctx, sb_)
+    nlit = 0
+    for bb, bi, si, st in R.constructions(p, "vls_persist::model::NodeStateEntry"):
+        if bb is not sb_:
+            continue
+        nlit += 1
+        vals = dict(zip(st.rv.a[3], st.rv.ops))
+        for fld in ("velocity_control", "fee_velocity_control"):
+            e = sv_.expr(vals[fld])
+            got = [x[3] for x in subexprs(e) if x[0] == "field" and x[2].endswith("node::NodeState")]
+            ctx.ob(rid, got == [fld], f"{sb_.name}/stores/{fld}",
+                   f"the stored {fld} is built from NodeState.{got}: after a restart the counted amounts of the two controls are "
+                   f"mixed up (a spec mismatch then resets the window)", where=f"{sb_.file}:{st.line}", sample=f"{fld} <- state.{fld}")
+    ctx.floor(rid, "NodeStateEntry literal in From<&NodeState>", nlit, 1)
     # update_spec: reset only when !spec_matches
     ub = p.fn(f"{VC}::update_spec")
     uv = fnview(ctx, ub, policy=False)
